@@ -4,10 +4,10 @@ import dv, ls_common, pf_common
 META = {
     'category': 'proof',
     'technique': 'Coq invariant over all interleavings of a step-level model (one step per atomic access / futex call) + lockstep replay of the same schedules on the real hooked code under a cooperative scheduler',
-    'text': 'Kernel-checked invariant for any number of threads, any program over notify/wait/waitFor/count_down(1)/try_wait/arrive_and_wait/completed/reset and '
+    'text': 'Kernel-checked invariant for any number of threads, any program over notify/wait/waitFor/count_down(n)/try_wait/arrive_and_wait/completed/reset and '
             'any schedule (futex = compare-and-block, wake-all): a waiter asleep while the word holds its target implies a committed wake-all; corollary: no quiescent '
-            'state with a lost wake-up.  C21_refuted proves the property FALSE for Latch::count_down(n>1) (known finding, replayed deterministically on the real code every run); '
-            'C21_holds_except covers the complement.  The model is tied to the code by running generated programs under generated schedules on the real classes '
+            'state with a lost wake-up, including count_down(n) for any n (the defect Latch::count_down(n>1) found by this check was repaired in /repo by a fix: commit; its witness is '
+            'replayed on every run as a regression case).  The model is tied to the code by running generated programs under generated schedules on the real classes '
             '(hooks at every atomic access, futex served by the harness) and comparing step trace, results, final word and status with the model evaluated in Coq.',
     'note': 'Trusted: Coq kernel; futex semantics (compare-and-block, wake wakes waiters of that address, no spurious wake modelled); harness/vsched.h; SC interleaving of atomics (weak-memory reorderings not modelled); Linux variant of CompletionEventImpl only. No axioms.',
 }
@@ -74,6 +74,7 @@ def gen_case(r, want_known=False):
         if want_known:
             progs[-1] = [('C', r.choice([2, 3, w0 if w0 > 1 else 2]))]
             progs[0] = [('W', 0)]
+            w0 = progs[-1][0][1] if r.random() < 0.7 else w0
     budget = 60
     sched = [r.randrange(0, 100) for _ in range(budget + 12)]
     return {'mode': mode, 'w0': w0, 'tmo': tmo, 'budget': budget, 'progs': progs, 'sched': sched}
@@ -104,7 +105,7 @@ def run(ctx):
     exe = dv.build_harness('h_event', ['h_event.cpp'], need_lib=False)
     ctx.phase('build')
     r = ctx.rng
-    # 1. deterministic witness of the known finding (C21_refuted), replayed on the real code
+    # 1. deterministic witness of the former defect (fixed in /repo), replayed on the real code as a regression case
     wit = {'mode': 'la', 'w0': 3, 'tmo': 0, 'budget': 10, 'progs': [[('W', 0)], [('C', 3)]], 'sched': [0, 0, 0, 1, 1] + [0] * 20}
     n = 600 if ctx.quick else 8000
     cases = [wit] + [gen_case(r, want_known=(i % 25 == 0)) for i in range(n)]
@@ -131,15 +132,13 @@ def run(ctx):
     hist = {}
     for v, (c, p, o) in zip(verdicts, kept):
         hist[v] = hist.get(v, 0) + 1
-        if v == 4:
-            ctx.violation('lost wake-up: ' + o[:300], {'finding_key': KEY, 'case': line_of(c)})
-        elif v == 2:
+        if v == 2:
             ctx.violation('lost wake-up (a waiter sleeps while the word holds its target and nothing is runnable): %s -> %s' % (line_of(c)[:200], o[:300]),
                           {'case': line_of(c), 'output': o, 'cmd': 'echo "<case>" | build/harness/h_event-*'})
         elif v == 1:
             ctx.broken.append('correspondence L(C21): real trace differs from the model on ' + line_of(c)[:160] + ' -> ' + o[:200])
-    ctx.cov['verdict_histogram'] = {'agree': hist.get(0, 0), 'differ_property_holds': hist.get(1, 0), 'lost_wakeup': hist.get(2, 0), 'lost_wakeup_known_domain': hist.get(4, 0)}
-    ctx.cov['traces_validated_against_impl'] += hist.get(0, 0) + hist.get(4, 0)
+    ctx.cov['verdict_histogram'] = {'agree': hist.get(0, 0), 'differ_property_holds': hist.get(1, 0), 'lost_wakeup': hist.get(2, 0)}
+    ctx.cov['traces_validated_against_impl'] += hist.get(0, 0)
     ctx.cov['status_histogram'] = {k: sum(1 for _, p, _ in kept if p['status'] == v) for k, v in (('done', 0), ('deadlock', 1), ('budget', 2))}
     ctx.sample({'case': line_of(cases[1])[:200], 'impl': outs[1][:300]})
     ctx.sample({'case': line_of(cases[0])[:80], 'impl': outs[0][:300]})
